@@ -392,7 +392,7 @@ func (runInfo *runInfoStruct) runTryStmt(stmt *ast.TryStmt) {
 	runInfo.runSingleStmt()
 
 	if runInfo.err != nil {
-		if runInfo.err == ErrInterrupt {
+		if runInfo.err == ErrInterrupt || runInfo.err == ErrBreak || runInfo.err == ErrContinue {
 			runInfo.env = env
 			return
 		}
